@@ -98,6 +98,7 @@ type T struct {
 	parent        *T
 	mu            sync.Mutex
 	capped        bool
+	caseDeadline  time.Time
 }
 
 // Deadline is the end of the run's budget (zero: none). An explorer inside a case stops
@@ -112,6 +113,25 @@ func (t *T) Capped() {
 		x.capped = true
 		x.mu.Unlock()
 	}
+}
+
+// ShareBudget gives this case an equal share of what is left of the run's budget, assuming
+// `remaining` cases (this one included) still have to run one after the other: an explorer
+// inside the case stops (capped) when the share is used up, so that the later cases of a
+// serial family are not starved by the earlier ones.
+func (t *T) ShareBudget(remaining int64) {
+	if Deadline.IsZero() || remaining <= 0 {
+		return
+	}
+	left := time.Until(Deadline)
+	if left < 0 {
+		left = 0
+	}
+	t.caseDeadline = time.Now().Add(left / time.Duration(remaining))
+}
+
+func (t *T) pastCaseDeadline() bool {
+	return !t.caseDeadline.IsZero() && time.Now().After(t.caseDeadline)
 }
 
 // PastDeadline reports whether the run's budget is used up.
